@@ -58,6 +58,10 @@ HEADERS = [
     b'content-transfer-encoding: 8BIT\r\nSubject: x',
     b'Content-Type: text/plain; charset=utf-8\r\n'
     b'Content-Transfer-Encoding: Binary',
+    b'Content-Type: text/plain; charset=utf-8\r\n'
+    b'Content-Transfer-Encoding: quoted-printable',
+    b'Content-Type: text/plain; charset=utf-8\r\n'
+    b'Content-Transfer-Encoding: BASE64',
     # physical lines of exactly 78 and 77 octets (the longest allowed)
     b'X-Long: ' + (b'word ' * 13) + b'words' + b'\r\nSubject: ' + b'a' * 68,
     b'Subject: short\r\n ' + (b'cont ' * 15) + b'z',
@@ -96,7 +100,7 @@ def cells(tier):
     n = 4 if tier == 'quick' else 6
     for h in range(len(HEADERS)):
         for lf in (0, 1):
-            if lf and h in (3, 5, 6, 8, 9, 11):
+            if lf and h in (3, 5, 6, 8, 9, 10, 11, 13):
                 continue
             out.append({'kind': 'body', 'h': h, 'lf': lf,
                         'n': n if h < 2 else n - 1})
@@ -257,8 +261,12 @@ def run_encoder(cell):
     from slimta.envelope import Envelope
     t = api.choice('text', len(TEXTS))
     e = api.choice('encoder', 2)
-    h = [5, 7, 0, 8, 9][api.choice('hdr', 5)]
+    h = [5, 7, 0, 8, 9, 10, 11][api.choice('hdr', 7)]
     text = TEXTS[t]
+    if h in (10, 11):
+        # a 7-bit body under a (wrong) base64 / quoted-printable label is
+        # passed on as it is; the property speaks about 8-bit bodies
+        api.assume(any(ord(ch) > 127 for ch in text))
     enc = [encode_base64, encode_quopri][e]
     env = Envelope('s@z', ['r@x'])
     env.parse(HEADERS[h] + b'\r\n\r\n' + text.encode('utf-8'))
